@@ -122,8 +122,27 @@ static std::string record(const std::string& op, const Position& pos, const std:
         p3.deSerialize(sd);
         std::string dd = diffFields(p3, pos);
         os << (dd.empty() ? "/ok" : "/MISMATCH:" + dd);
+        // ... and into a reused object that still holds the previously recorded position (stale e.p. square, castle mask, keys)
+        static thread_local Position reused;
+        reused.deSerialize(sd);
+        std::string d2 = diffFields(reused, pos);
+        os << (d2.empty() ? " reuse=ok" : " reuse=MISMATCH:" + d2);
     } else {
         os << "/out-of-range";
+    }
+    // the light-weight make/unmake pair used by the static exchange evaluation must restore the position for every legal move
+    {
+        Position work(pos);
+        MoveList ml; MoveGen::pseudoLegalMoves(work, ml); MoveGen::removeIllegal(work, ml);
+        std::string bad;
+        for (int i = 0; i < ml.size && bad.empty(); i++) {
+            UndoInfo ui;
+            work.makeSEEMove(ml[i], ui);
+            work.unMakeSEEMove(ml[i], ui);
+            std::string d3 = diffFields(work, pos);
+            if (!d3.empty()) bad = TextIO::moveToUCIString(ml[i]) + ":" + d3;
+        }
+        os << (bad.empty() ? " see=ok" : " see=MISMATCH:" + bad);
     }
     os << extra;
     return os.str();
